@@ -540,9 +540,11 @@ def minimise(case, signature):
 
 RULE = ("seeded sessions over shared objects: two dimension lists over the same 0-16 rows (1-8 and 1-6 sub-cubes), 2-4 fact "
         "variables (NaN-marked or (values, validity) with garbage incl. NaN under False validity, 1-3 columns), 1-2 weight "
-        "variables, two cube objects of one kind, 2-5 aggregate objects; 2-8 calls: calculate(sub-list in random order) "
+        "variables (plain / strided / read-only / Fortran-ordered arrays), two cube objects of one kind plus a third cube over "
+        "a DIFFERENT row count for the row-free aggregates, 2-5 aggregate objects; 2-8 calls: calculate(sub-list in random "
+        "order, 15 % with the same object twice) "
         "serial / pooled under a seeded schedule / interrupted serially or pooled, cube shortcut methods with the shared "
-        "arguments, the same aggregate objects on the other cube, construction of further cubes, non-mutating index "
-        "methods; after every call all shared arguments are compared byte for byte with their snapshots, every result "
+        "arguments, the same aggregate objects on the other cubes, construction of further cubes, non-mutating index "
+        "methods incl. from_array(values, counts, common, mapping); after every call all shared arguments are compared byte for byte with their snapshots, every result "
         "with the aggregate evaluated alone on fresh copies, and all earlier results with their own snapshots. "
         "evaluations = sessions; distinct non-trivial = distinct sessions with >= 2 calls")
